@@ -255,9 +255,33 @@ pub fn counter_roots() -> Vec<RootSpec> {
     v
 }
 
+/// the colour mirror of every history-less member of every family (Black's castling, Black's en passant, Black's
+/// promotions as the best move of the root): whatever the engine encodes per colour shows only on one side
+pub fn mirror_roots() -> Vec<RootSpec> {
+    let mut v = vec![];
+    for (_, root) in family_roots() {
+        for spec in family(root) {
+            if !spec.history.is_empty() {
+                continue;
+            }
+            if let Ok(p) = parse_fen_strict(&spec.fen) {
+                let m = p.pos.normalised().mirror();
+                if m.sane() {
+                    v.push(RootSpec::fen(&m.fen6(false)));
+                }
+            }
+        }
+    }
+    v.sort();
+    v.dedup();
+    v
+}
+
 /// every counter / long-history root once, fresh table, depths 1..=3
 pub fn counter_histories(which: Which) -> (Acc, SpaceReport) {
-    let roots = counter_roots();
+    let mut roots = counter_roots();
+    let n_counter = roots.len();
+    roots.extend(mirror_roots());
     let t0 = std::time::Instant::now();
     let acc = par_items(&roots, &|_, spec, acc| {
         let (game, pos) = match spec.build() {
@@ -278,10 +302,16 @@ pub fn counter_histories(which: Which) -> (Acc, SpaceReport) {
             let wj = J::Arr(vec![json::obj(vec![("op", json::s("search")), ("fen", json::s(b.spec.fen.clone())), ("history", json::s(b.spec.history.join(" "))), ("depth", json::i(d))])]);
             judge(which, &b, d, &run, &w, &wj, acc);
             acc.transitions += 1;
+            // and once more on the table it left (answer served from the cached root entry)
+            let run2 = run_search(&b.game, &mut t, &SearchCfg::depth(d));
+            if let J::Arr(one) = &wj {
+                judge(which, &b, d, &run2, &format!("{} ; {}", w, w), &J::Arr(vec![one[0].clone(), one[0].clone()]), acc);
+            }
+            acc.transitions += 1;
         }
     });
     let n = acc.states;
-    (acc, SpaceReport { name: format!("move-counter and long-history roots ({} roots: FEN counters on a boundary grid, reversible shuffles of 96..=104 and 196..=201 plies), depths 1..=3", roots.len()), states: n, exhaustive: true, note: format!("[{:.1}s]", t0.elapsed().as_secs_f64()) })
+    (acc, SpaceReport { name: format!("move-counter and long-history roots ({} roots: FEN counters on a boundary grid, reversible shuffles of 96..=104 and 196..=201 plies) and {} colour mirrors of the family positions, depths 1..=3, each asked twice on one table", n_counter, roots.len() - n_counter), states: n, exhaustive: true, note: format!("[{:.1}s]", t0.elapsed().as_secs_f64()) })
 }
 
 #[derive(Clone, Debug, PartialEq)]
